@@ -214,7 +214,7 @@ func init() {
 	})
 	register(&PropSpec{
 		ID: "C13", Level: "exploration",
-		Rule:        "C01/C02/C03 histories in which 1..3 groups of 2..4 keys are forced onto one 64-bit key hash (in-package override of the hash function; all other keys keep their real hash), with overwrites and deletes of every group member, restarts (tree dump present, removed, hint files removed; collision.yaml kept) and GC passes (merge on/off) at generated positions; after every step value, flags and liveness of every key are compared with the reference map (versions only for non-colliding keys; the status of a delete of a colliding key is recorded, not judged). distinct = read signatures (check point x residence x size x phase) observed for runs containing colliding groups",
+		Rule:        "C01/C02/C03 histories in which 1..3 groups of 2..4 keys are forced onto one 64-bit key hash (in-package override of the hash function; all other keys keep their real hash), with overwrites and deletes of every group member, restarts (tree dump present, removed, hint files removed; collision.yaml kept) and GC passes (merge on/off) at generated positions; after every step value, flags and liveness of every key are compared with the reference map (versions only for non-colliding keys). An anomaly of a colliding key is a soft violation whose signature names symptom, phase (gc vs gc-nomerge), what the siblings did since the key's last write, and the index route (collision table / own record behind the shared tree entry / hint lookup behind a sibling's entry / no entry) read from the store before the get; the model is then re-synchronised and later anomalies of that key carry the prefix follow-up:. Only signatures matching an open entry of known_findings.json (four mechanisms, DESIGN section 12) are tolerated. distinct = read signatures (check point x residence x size x phase) observed for runs containing colliding groups",
 		Assumptions: []string{"colliding keys are written with revision 0 only (members of a group share one tree slot and version counter)", "collision.yaml is durable state and is never deleted by the harness"},
 		Plan: func(tier string, seed uint64) []Job {
 			var jobs []Job
